@@ -620,6 +620,8 @@ class Gen:
             elif r < w[3] and cfg["ptr"]:
                 tgt = rnd.choice([t_int("uint16"), t_int("uint8"), t_char()])
                 t = t_ptr(tgt)
+                if rnd.random() < 0.15:
+                    t = t_ptr(t)           # pointer to pointer
                 if rnd.random() < 0.2:
                     t = t_arr(t, L_fixed(rnd.randrange(1, 3)))
                 fields.append(field(fname, t))
